@@ -33,14 +33,14 @@ TxSpends  == <<0, 1, 0, 5>>
 ExtScript == <<3>>
 
 \* transactions of each block, in block order (coinbase not listed)
-BlockTxs == << <<>>, <<>>, <<1, 3>>, <<2>>, <<3>>, <<1, 2>>, <<4>> >>
+BlockTxs == << <<>>, <<>>, <<1, 3>>, <<2, 4>>, <<3>>, <<1, 2, 4>>, <<>> >>
 
 StartB    == 0          \* the caller's start block (hash and height given)
 StartT    == 1          \* blocks at height >= StartT are after the start time
-InitWatch == <<1, 105>> \* WatchAddrs / WatchInputs given to NewRescan
+InitWatch == <<1>>      \* WatchAddrs / WatchInputs given to NewRescan
 InitChain == <<0, 1, 2>> \* header chain when the rescan is started
 InitFH    == 2          \* height of the filter-header tip at that moment
 
 \* the updates the caller may send: items added and rewind height (0 = none)
-Updates == << [add |-> <<2>>, rw |-> 1], [add |-> <<2>>, rw |-> 0] >>
+Updates == << [add |-> <<2, 105>>, rw |-> 1], [add |-> <<2, 105>>, rw |-> 0] >>
 =============================================================================
